@@ -188,9 +188,20 @@ def checkAml (case impl : List String) : List Fail :=
               (if isRt then
                  match t with
                  | .node _ _ _ kids =>
-                   match Spec.rtOracle kids.toList bs with
-                   | some e => [⟨"prop", "C10", "resource-template", e⟩]
-                   | none => []
+                   (match Spec.rtOracle kids.toList bs with
+                    | some e => [⟨"prop", "C10", "resource-template", e⟩]
+                    | none => []) ++
+                   -- a child whose reference value does not fit its field (`render` would truncate it) cannot be
+                   -- encoded: a template emitted with such a child is reported, whatever its bytes are
+                   (kids.toList.filterMap fun k => match k with
+                     | .node op ints _ _ =>
+                       if Spec.isDescriptor op then
+                         match Spec.Res.rows op ints with
+                         | some (_, rs) =>
+                           (rs.find? (fun r => match r with | .num _ w v => decide (v ≥ 2 ^ (8 * w)) | _ => false)).map fun r =>
+                             (⟨"prop", "C10", "resource-template", s!"child descriptor: the specification's value for the field at offset {r.off} (width {r.width}) does not fit the field, yet the template was emitted"⟩ : Fail)
+                         | none => none
+                       else none)
                else [])
         let altF : List Fail :=
           if alt = "~" then [] else
